@@ -717,8 +717,12 @@ impl Engine for DbEngine {
         };
         json!({ "ans": ans })
     }
-    /// Group by operation and by the kind of wrong answer: "<op>:<kind>".
-    fn signature(&self, op: &Value, _diff: &[String], exp: &Value, got: &Value) -> String {
+    /// Group by operation, kind of wrong answer, address kind and the last write that address saw:
+    /// "<op>:<kind>@a<address>:<last write op | ->" (code_by_hash: "@h<code>").
+    fn signature(&self, op: &Value, diff: &[String], exp: &Value, got: &Value) -> String {
+        self.signature_h(&[], op, diff, exp, got)
+    }
+    fn signature_h(&self, hist: &[Value], op: &Value, _diff: &[String], exp: &Value, got: &Value) -> String {
         let name = op.get("op").and_then(|v| v.as_str()).unwrap_or("?");
         let cls = |v: &Value| match v.as_i64() {
             Some(0) => "0".to_string(),
@@ -743,7 +747,25 @@ impl Engine for DbEngine {
                 _ => "shape".to_string(),
             }
         };
-        format!("{name}:{kind}")
+        let place = if let Some(a) = op.get("a").and_then(|v| v.as_i64()) {
+            let last = hist
+                .iter()
+                .rev()
+                .filter(|h| {
+                    let o = h["op"].as_str().unwrap_or("");
+                    let writes = !matches!(o, "basic" | "has_storage" | "storage" | "acode" | "code_by_hash" | "block_hash");
+                    writes && (h["a"].as_i64() == Some(a) || h.get("b").and_then(|v| v.as_i64()) == Some(a))
+                })
+                .map(|h| h["op"].as_str().unwrap_or("?").to_string())
+                .next()
+                .unwrap_or("-".to_string());
+            format!("@a{a}:{last}")
+        } else if let Some(h) = op.get("h").and_then(|v| v.as_i64()) {
+            format!("@h{h}")
+        } else {
+            String::new()
+        };
+        format!("{name}:{kind}{place}")
     }
 }
 
